@@ -774,6 +774,11 @@ def front_end(ctx: Ctx, R: dict, declare: bool = True):
         want_gt = te.parse_term("true_value * (1 - H) + false_value * H", env={"H": H_ref})
         want_lt = te.parse_term("true_value * H + false_value * (1 - H)", env={"H": H_ref})
         leaves = [(c, x) for c, x in _br(ccv) if x[0] not in ("raise",) and x != _ave.NONE]
+        if len(leaves) == 1 and _ave.find_all(leaves[0][1], "if"):
+            # the branch is taken inside the expression (a helper that returns the pair of weights): split by its condition
+            split = _ue.case_split(leaves[0][1])
+            if split is not None:
+                leaves = [(tuple(leaves[0][0]) + tuple(c), x) for c, x in split]
         okw = len(leaves) == 2
         seen_gt = seen_lt = False
         okh = True
